@@ -25,6 +25,7 @@ ADM_L = [[0, 1, 0], [0, 2, 0], [0, 3, 0]]
 CFGS = {
     't':   ('MC_TxPool_t.cfg',   {'accts': [1], 'universe': UT, 'P': 1, 'W': 1}),
     'g':   ('MC_TxPool_g.cfg',   {'accts': [1], 'universe': UG, 'P': 2, 'W': 2}),
+    'g3':  ('MC_TxPool_g3.cfg',  {'accts': [1], 'universe': UG, 'P': 3, 'W': 2}),
     'm':   ('MC_TxPool_m.cfg',   {'accts': [1, 2], 'universe': [[1, 0, 1], [1, 1, 1], [1, 0, 2], [2, 0, 1], [2, 1, 1]] + ADM_G, 'P': 2, 'W': 2}),
     'q':   ('MC_TxPool_q.cfg',   {'accts': [1, 2], 'universe': UQ + ADM_G, 'P': 2, 'W': 2}),
     'qs':  ('MC_TxPool_qs.cfg',  {'accts': [1, 2], 'universe': UQ + ADM_G, 'P': 2, 'W': 2}),
@@ -73,7 +74,7 @@ def run(ctx, replay=None):
     traces = []
 
     # 1. TxPool exhaustive; edge cover of the smallest configuration's state graph
-    for name in (['t', 'g'] if quick else ['t', 'g', 'm']):
+    for name in (['t', 'g3'] if quick else ['t', 'g', 'g3', 'm']):
         cfgfile, tcfg = CFGS[name]
         dump = name == 't'
         r = engine.tlc_check(ctx, SPEC, MODULE, cfgfile, name='TxPool/' + name, dump=dump, coverage=dump,
@@ -144,6 +145,12 @@ def run(ctx, replay=None):
         cfgfile, tcfg = CFGS[name]
         r, ts = tlc.simulate_traces(SPEC, MODULE, cfgfile, num, depth, ctx.seed, drop_vars=DROP, timeout=900)
         ctx.add_tlc('TxPool/sim-' + name, r, exhaustive=False)
+        if r.violation:
+            # a property of the SPEC fails on a simulated behaviour: not a verdict about the code by itself; the
+            # behaviour is replayed on the real pool, whose model-independent oracles decide
+            ctx.inconclusive.append('spec property %s violated on a simulated behaviour of config %s' % (r.violation, name))
+            if r.trace:
+                traces.append(from_tlc_trace(r.trace, tcfg, 'sim-counterexample-%s-%d' % (name, ctx.seed)))
         for k, t in enumerate(ts):
             if name == 'e':
                 # an eviction tick costs a minute of real time: keep behaviours that contain one, cut after it
@@ -166,6 +173,9 @@ def run(ctx, replay=None):
                                                   ('Update', [[[1, 0, 2]]]), ('SwapState', []), ('UpdateToState', [[1, 2], [1, 2]]),
                                                   ('Reap', [100]), ('Submit', [[1, 0, 1], 'ok']), ('Reap', [100])]))
 
+    traces.append(hand('middle-gap', cfg2, [('Submit', [[2, 1, 1], 'ok']), ('Submit', [[2, 2, 3], 'ok']), ('Submit', [[2, 0, 1], 'ok']),
+                                            ('Reap', [100]), ('Update', [[[2, 1, 1]]]), ('SwapState', []),
+                                            ('UpdateToState', [[1, 2], [1, 2]]), ('Reap', [100]), ('Submit', [[2, 1, 1], 'ok']), ('Reap', [100])]))
     traces.append(hand('tryreplace-evicts', cfg2, [('Submit', [[1, 1, 1], 'ok']), ('Submit', [[1, 2, 1], 'ok']), ('Submit', [[1, 3, 1], 'ok']),
                                                    ('Submit', [[1, 0, 1], 'ok']), ('Submit', [[1, 3, 1], 'ok']), ('Reap', [100])]))
 
